@@ -2,10 +2,11 @@
 Helper lemmas for Props/C02.lean, part 3: basic/common header octets, packet assembly, forwarding.
 -/
 import FlexModel.Wire.HeaderLemmas2
+import FlexModel.Geo.LTLemmas
 
 namespace FlexModel.Wire
 open Generated.WireEnums
-open FlexModel.Geo (LT srcLifetime)
+open FlexModel.Geo
 open Spec (pack packAux encField Layout)
 
 /-! ### octet `i` of `n.to_bytes(len)` -/
@@ -73,9 +74,26 @@ theorem srcBasic_wf (v : Variant) (mib : Mib) (hm : mib.WF) (life : Option Nat) 
   · simp [srcBasic, Spec.basicNH, BasicNH_COMMON_HEADER]
   · simp [srcBasic]
 
-theorem srcBasic_fields (v : Variant) (hv : v.versionFromMib = true) (mib : Mib) (life : Option Nat) (rhl : Nat) :
-    (srcBasic v mib life rhl).fields = Spec.basicValues mib.version (srcLifetime v.capped life mib.defaultLifetimeS) rhl := by
-  simp [srcBasic, BasicHeader.fields, Spec.basicValues, hv, BasicNH_COMMON_HEADER]
+/-- the basic header of a source operation carries the prescribed field values — for the repaired variant of C02-KF2
+(version from the MIB) and ALSO for the code as it is (version hard-coded 1) whenever itsGnProtocolVersion = 1,
+which is the MIB default; the LT fields are those of the octet `(srcLifetime …).encode` -/
+theorem srcBasic_fields (v : Variant) (mib : Mib) (hv : v.versionFromMib = true ∨ mib.version = 1) (life : Option Nat)
+    (rhl : Nat) :
+    (srcBasic v mib life rhl).fields =
+      Spec.basicValues mib.version (srcLifetime v.capped life mib.defaultLifetimeS).encode rhl := by
+  obtain ⟨h1, h2⟩ := LTLemmas.octet_split _ (LTLemmas.srcLifetime_wf v.capped life mib.defaultLifetimeS)
+  have hver : (if v.versionFromMib = true then mib.version else 1) = mib.version := by
+    rcases hv with h | h
+    · simp [h]
+    · split <;> simp [h]
+  simp only [srcBasic, BasicHeader.fields, Spec.basicValues, hver, BasicNH_COMMON_HEADER, h1, h2]
+  simp
+
+/-- the implementation's hop-limit expression is the standard's rule under the interface convention -/
+theorem srcHopLimit_eq (mib : Mib) (r : Request) :
+    srcHopLimit mib r = LTSpec.hopLimit (LTSpec.requestedHops r.maxHopLimit) mib.defaultHopLimit := by
+  simp only [srcHopLimit, LTSpec.hopLimit, LTSpec.requestedHops]
+  split <;> split <;> first | rfl | omega | simp_all
 
 theorem commonOfRequest_wf (r : Request) (hr : r.WF) (mib : Mib) (hm : mib.WF) : (commonOfRequest r mib).WF := by
   obtain ⟨r1, r2, r3, r4, r5, r6, r7, r8⟩ := hr
@@ -98,6 +116,11 @@ theorem commonOfRequest_fields (r : Request) (mib : Mib) (hm : mib.WF) :
 
 theorem TrafficClass.decodeInt_wf (x : Nat) : (TrafficClass.decodeInt x).WF := by
   simp only [TrafficClass.WF, TrafficClass.decodeInt, and_63]; omega
+
+/-- the implementation's decoder of the traffic class octet reads it the standard's way, for all 256 octets -/
+theorem tcDecode_eq_spec (o : Nat) (h : o < 256) : TrafficClass.decodeInt o = Spec.tcOfOctet o := by
+  have : ∀ o : Fin 256, TrafficClass.decodeInt o.1 = Spec.tcOfOctet o.1 := by decide +kernel
+  exact this ⟨o, h⟩
 
 theorem commonLS_wf (mib : Mib) (hm : mib.WF) (hst : Nat) (hh : hst < 2) : (commonLS mib hst).WF := by
   obtain ⟨m1, m2, m3, m4⟩ := hm
@@ -148,27 +171,65 @@ theorem decRhl_wf (h : BasicHeader) (wf : h.WF) : (decRhl h).WF := by
   obtain ⟨h1, h2, h3, h4, h5, h6⟩ := wf
   exact ⟨h1, h2, h3, h4, h5, by simp only [decRhl]; omega⟩
 
-theorem forward_gen (bh : BasicHeader) (wb : bh.WF) (ch : CommonHeader) (wc : ch.WF) (fc : ch.FlagsConformant) (n : Nat)
-    (hext : extLen ch.ht ch.hst = some n) (extb payload : Bytes) (hlen : extb.length = n)
-    (hre : reencodeExt ch.ht extb = .ok extb) :
-    forwardPacket (toBytesBE 4 bh.encodeInt ++ (toBytesBE 8 ch.encodeInt ++ (extb ++ payload))) =
-      .ok (toBytesBE 4 (decRhl bh).encodeInt ++ (toBytesBE 8 ch.encodeInt ++ (extb ++ payload))) := by
-  have d1 := BasicHeader.decode_octets bh wb (toBytesBE 8 ch.encodeInt ++ (extb ++ payload))
-  have d2 := CommonHeader.decode_octets ch wc fc (extb ++ payload)
+/-- behind the forwarders' guard (received RHL ≥ 2) `set_rhl(rhl - 1)` is a true decrement: no wrap, result ≥ 1 -/
+theorem decRhl_rhl (h : BasicHeader) (wf : h.WF) (h2 : 2 ≤ h.rhl) : (decRhl h).rhl + 1 = h.rhl ∧ 1 ≤ (decRhl h).rhl := by
+  have := wf.2.2.2.2.2
+  simp only [decRhl]; omega
+
+private theorem fwd_prefix (bh : BasicHeader) (wb : bh.WF) (ch : CommonHeader) (wc : ch.WF) (fc : ch.FlagsConformant)
+    (extb payload : Bytes) :
+    BasicHeader.decode (slice (toBytesBE 4 bh.encodeInt ++ (toBytesBE 8 ch.encodeInt ++ (extb ++ payload))) 0 4) = .ok bh ∧
+    (toBytesBE 4 bh.encodeInt ++ (toBytesBE 8 ch.encodeInt ++ (extb ++ payload))).drop 4 =
+      toBytesBE 8 ch.encodeInt ++ (extb ++ payload) ∧
+    CommonHeader.decode (slice (toBytesBE 8 ch.encodeInt ++ (extb ++ payload)) 0 8) = .ok ch ∧
+    (toBytesBE 8 ch.encodeInt ++ (extb ++ payload)).drop 8 = extb ++ payload := by
+  refine ⟨BasicHeader.decode_octets bh wb _, ?_, CommonHeader.decode_octets ch wc fc _, ?_⟩
+  · rw [List.drop_append_of_le_length (by simp [toBytesBE_length])]
+    simp [List.drop_eq_nil_of_le, toBytesBE_length]
+  · rw [List.drop_append_of_le_length (by simp [toBytesBE_length])]
+    simp [List.drop_eq_nil_of_le, toBytesBE_length]
+
+/-- generic forwarding lemma: a conformant packet with RHL ≥ 2 whose extended header `extb` is re-encoded to `extb'`
+(`= extb` unless the DE PV is refreshed) goes out with RHL − 1 and is otherwise octet-identical -/
+theorem forward_gen (refresh : Option ShortPV) (bh : BasicHeader) (wb : bh.WF) (h2 : 2 ≤ bh.rhl) (ch : CommonHeader)
+    (wc : ch.WF) (fc : ch.FlagsConformant) (n : Nat) (hext : extLen ch.ht ch.hst = some n) (extb extb' payload : Bytes)
+    (hlen : extb.length = n) (hre : reencodeExt ch.ht refresh extb = .ok extb') :
+    forwardPacket refresh (toBytesBE 4 bh.encodeInt ++ (toBytesBE 8 ch.encodeInt ++ (extb ++ payload))) =
+      .ok (some (toBytesBE 4 (decRhl bh).encodeInt ++ (toBytesBE 8 ch.encodeInt ++ (extb' ++ payload)))) := by
+  obtain ⟨d1, dr1, d2, dr2⟩ := fwd_prefix bh wb ch wc fc extb payload
   have e1 : (decRhl bh).encode = .ok (toBytesBE 4 (decRhl bh).encodeInt) := toBytes?_ok (BasicHeader.encodeInt_lt _ (decRhl_wf bh wb))
   have e2 : ch.encode = .ok (toBytesBE 8 ch.encodeInt) := toBytes?_ok (CommonHeader.encodeInt_lt _ wc)
-  have dr1 : (toBytesBE 4 bh.encodeInt ++ (toBytesBE 8 ch.encodeInt ++ (extb ++ payload))).drop 4 =
-      toBytesBE 8 ch.encodeInt ++ (extb ++ payload) := by
-    rw [List.drop_append_of_le_length (by simp [toBytesBE_length])]
-    simp [List.drop_eq_nil_of_le, toBytesBE_length]
-  have dr2 : (toBytesBE 8 ch.encodeInt ++ (extb ++ payload)).drop 8 = extb ++ payload := by
-    rw [List.drop_append_of_le_length (by simp [toBytesBE_length])]
-    simp [List.drop_eq_nil_of_le, toBytesBE_length]
   have dr3 : (extb ++ payload).drop n = payload := by
     rw [← hlen]; simp
   have sl : slice (extb ++ payload) 0 n = extb := slice_prefix _ _ _ hlen.symm
-  simp only [forwardPacket, d1, dr1, d2, dr2, hext, e1, e2, sl, hre, dr3, bind, Except.bind, pure, Except.pure,
+  have g : ¬ bh.rhl ≤ 1 := by omega
+  simp only [forwardPacket, d1, dr1, d2, dr2, hext, e1, e2, sl, hre, dr3, g, if_false, bind, Except.bind, pure, Except.pure,
     List.append_assoc]
+
+/-- hop limit exhausted (received RHL 0 or 1): nothing is put on the wire -/
+theorem forward_gen_exhausted (refresh : Option ShortPV) (bh : BasicHeader) (wb : bh.WF) (h1 : bh.rhl ≤ 1) (ch : CommonHeader)
+    (wc : ch.WF) (fc : ch.FlagsConformant) (n : Nat) (hext : extLen ch.ht ch.hst = some n) (extb extb' payload : Bytes)
+    (hlen : extb.length = n) (hre : reencodeExt ch.ht refresh extb = .ok extb') :
+    forwardPacket refresh (toBytesBE 4 bh.encodeInt ++ (toBytesBE 8 ch.encodeInt ++ (extb ++ payload))) = .ok none := by
+  obtain ⟨d1, dr1, d2, dr2⟩ := fwd_prefix bh wb ch wc fc extb payload
+  have sl : slice (extb ++ payload) 0 n = extb := slice_prefix _ _ _ hlen.symm
+  simp only [forwardPacket, d1, dr1, d2, dr2, hext, sl, hre, h1, if_true, bind, Except.bind, pure, Except.pure]
+
+/-- secured forwarding, both variants, for any plain message the ordinary forwarder forwards (`hin`): the repaired variant
+emits the received octets with RHL − 1 and NOTHING else changed (envelope `env` untouched); the code as it is emits the
+unsecured re-assembly `out` -/
+theorem forwardSecured_eq (refresh : Option ShortPV) (bh : BasicHeader) (wb : bh.WF) (env plain out : Bytes)
+    (hin : forwardPacket refresh (toBytesBE 4 ({ bh with nh := BasicNH_COMMON_HEADER } : BasicHeader).encodeInt ++ plain) = .ok (some out)) :
+    forwardSecured true refresh (toBytesBE 4 bh.encodeInt ++ env) plain = .ok (some (toBytesBE 4 (decRhl bh).encodeInt ++ env)) ∧
+    forwardSecured false refresh (toBytesBE 4 bh.encodeInt ++ env) plain = .ok (some out) := by
+  have d1 := BasicHeader.decode_octets bh wb env
+  have e1 : (decRhl bh).encode = .ok (toBytesBE 4 (decRhl bh).encodeInt) := toBytes?_ok (BasicHeader.encodeInt_lt _ (decRhl_wf bh wb))
+  have dr : (toBytesBE 4 bh.encodeInt ++ env).drop 4 = env := by
+    rw [List.drop_append_of_le_length (by simp [toBytesBE_length])]
+    simp [List.drop_eq_nil_of_le, toBytesBE_length]
+  constructor
+  · simp only [forwardSecured, d1, hin, e1, dr, if_true, bind, Except.bind, pure, Except.pure]
+  · simp [forwardSecured, d1, hin, bind, Except.bind, pure, Except.pure]
 
 /-! ### octet positions inside encoded headers -/
 theorem field_at' (x hi lo d m f : Nat) (hx : x = hi * d + lo) (hlo : lo < d) (hf : hi % m = f) : x / d % m = f := by
